@@ -461,6 +461,14 @@ fn vec_history_inner(ops: &[VecOp]) -> Vec<VecObs> {
                 b = a.clone();
                 1
             }
+            VecOp::CloneFromA => {
+                b.clone_from(&a);
+                1
+            }
+            VecOp::CloneFromB => {
+                a.clone_from(&b);
+                1
+            }
             VecOp::Swap => {
                 core::mem::swap(&mut a, &mut b);
                 1
@@ -642,10 +650,21 @@ fn shapes_g<F: Float>(int: &[u8], frac: &[u8], exp: i32, shape: u32, salt: u64) 
             };
             ml::parse_float::<F, _, _>(i, f, exp).to_bits()
         }
-        _ => {
+        9 => {
             let ci = chunks_of(int, salt);
             let singles: Vec<[u8; 1]> = frac.iter().map(|&c| [c]).collect();
             ml::parse_float::<F, _, _>(ci.iter().flat_map(|c| c.iter()), singles.iter().map(|a| &a[0]), exp).to_bits()
+        }
+        _ => {
+            // every item is a reference into one shared table: equal digits have equal addresses (a
+            // run-length-decoded or table-mapped front-end yields exactly this); for valid input only
+            static DIGIT_TABLE: [u8; 10] = [b'0', b'1', b'2', b'3', b'4', b'5', b'6', b'7', b'8', b'9'];
+            if int.iter().chain(frac.iter()).all(|c| c.is_ascii_digit()) {
+                let f = |c: &u8| &DIGIT_TABLE[(*c - b'0') as usize];
+                ml::parse_float::<F, _, _>(int.iter().map(f), frac.iter().map(f), exp).to_bits()
+            } else {
+                ml::parse_float::<F, _, _>(int.iter(), frac.iter(), exp).to_bits()
+            }
         }
     }
 }
